@@ -33,6 +33,27 @@ CONSTANTS
 """ % (family, items, defs, uses)
 
 
+def inc_cfg(items, defs, uses, reextract, styles, containers, labels):
+    return """INIT IncInit
+NEXT IncNext
+INVARIANTS MapIsFirstWins StandardAgrees LinkNamesKey KeysNormalizedInc
+PROPERTY Monotone
+CONSTRAINT IncEmit
+CHECK_DEADLOCK FALSE
+CONSTANTS
+  Family = "none"
+  MaxItems = %d
+  MaxDefs = %d
+  MaxUses = %d
+  File = "none"
+  MaxReextract = %d
+  MemoDeviation = FALSE
+  IncStyles = %s
+  IncContainers = %s
+  IncLabelSet = "%s"
+""" % (items, defs, uses, reextract, styles, containers, labels)
+
+
 def regen(base, rp):
     return ["refs", "regen", base, rp]
 
@@ -42,9 +63,20 @@ def run(ctx):
     quick = ctx.tier == "quick"
     jobs = [dict(module="Refs", cfg_text=cfg(f, 3 if quick else 4, 2 if quick else 3, 2), name="Refs_" + f, workers=4, timeout=3000)
             for f in FAMILIES]
-    rs = ctx.tlc_many(jobs, parallel=4)
+    # three definitions (a duplicate between two others, at every combination of depths) need their own small label set
+    jobs.append(dict(module="Refs", cfg_text=cfg("case3", 4, 3, 1 if quick else 2), name="Refs_case3", workers=4, timeout=3000))
+    # the incremental machine (RefsInc.tla): every order of Extract / Rewrite calls over two documents and one InlineParser value
+    inc = [dict(module="RefsInc", cfg_text=inc_cfg(3, 2, 2, 1, "{1, 3}", "{0, 1}", "aAb"), name="RefsInc_3", workers=4, timeout=3000),
+           dict(module="RefsInc", cfg_text=inc_cfg(4, 2, 2, 0, "{3}" if quick else "{1, 3}", "{0}", "aA"), name="RefsInc_4", workers=4, timeout=3000)]
+    if not quick:
+        inc.append(dict(module="RefsInc", cfg_text=inc_cfg(3, 2, 2, 1, "{1, 2, 3}", "{0, 1}", "aAb"), name="RefsInc_3full", workers=4, timeout=3000))
+    rs = ctx.tlc_many(jobs + inc, parallel=4)
+    incrs, rs = rs[len(jobs):], rs[:len(jobs)]
     rc, res, _ = ctx.harness(["refs", "model"] + [r["out"] for r in rs], timeout=3000)
     ctx.absorb(res)
+    rc, res, _ = ctx.harness(["refs", "inc"] + [r["out"] for r in incrs], timeout=3000)
+    ctx.absorb(res)
+    ctx.extra["incremental_behaviours_replayed"] = res["evaluations"]
     modelCands, ctx.candidates = list(ctx.candidates), []
     base = ctx.scratch + "/refs.ndjson"
     nsh = 16
@@ -58,7 +90,9 @@ def run(ctx):
     ctx.candidates = ctx.keep_confirmed(modelCands, conf) + confirmedTrace
     ctx.exhaustive = True
     ctx.rule = ("model: per label family (case, whitespace, sharp-s, dotted-I, NBSP, escaped brackets) every document of <= 3/4 items with <= 2/3 definitions "
-                "(plain / in quote / in list item) and <= 2 uses x 3 reference styles; closure clause: label-rich templates (24 labels squared x 5 styles x "
+                "(plain / in quote / in list item / two depths of one root block) and <= 2 uses x 3 reference styles, plus three definitions over {a, A, b}; "
+                "incremental machine (RefsInc.tla): every order of Extract / Rewrite calls on two documents of together <= 3 items (labels a A b, matcher nil / own map / "
+                "the other document's map, one repeated Extract) and <= 4 items (labels a A) through ONE InlineParser value; closure clause: label-rich templates (24 labels squared x 5 styles x "
                 "containers), damaged spec examples with definitions, seeded mixed sources; non-trivial = some use resolves (model) / document has a "
                 "definition and a reference node (closure); distinct by document bytes")
     ctx.assumptions += ["case folding is checked against an explicit table (ss, SZ, CAPSZ, IDOT, ASCII); keys with characters outside the table are not judged for the 'normalized' sub-clause",
@@ -69,7 +103,7 @@ def run(ctx):
 def replay(ctx, path):
     import json
     rec = json.load(open(path))["record"]
-    if rec.get("kind") == "refs-model":
+    if rec.get("kind") in ("refs-model", "refs-inc"):
         replay_with(ctx, "refs", path)
     else:
         tracefam.replay(ctx, "Refs", regen, CONSTS, path, HEAD)
